@@ -239,8 +239,212 @@ def flip_through_helper(b, bodies, val):
     return False
 
 
+ARC = r'Arc<'
+FIELD_ROLES = {
+    'internal::ChannelInternal': [('queue', r'VecDeque<T>$'), ('wait_list', r'VecDeque<signal::SignalTerminator<T>>$'),
+                                  ('recv_blocking', r'^bool$'), ('capacity', r'^usize$')],
+    'mutex::RawMutexLock': [('locked', r'Atomic<bool>$')],
+    'future::SendFuture': [('state', r'FutureState$'), ('internal', r'^&.*Arc<'), ('sig', r'signal::Signal<T>$'), ('data', r'MaybeUninit<T>$')],
+    'future::ReceiveFuture': [('state', r'FutureState$'), ('internal', r'^&.*Arc<'), ('sig', r'signal::Signal<T>$'), ('data', r'MaybeUninit<T>$'),
+                              ('is_stream', r'^bool$')],
+    'future::ReceiveStream': [('future', r'ReceiveFuture<'), ('terminated', r'^bool$'), ('receiver', r'AsyncReceiver<T>$')],
+    'signal::Signal': [('state', r'Atomic<u8>$'), ('ptr', r'KanalPtr<T>$'), ('waker', r'KanalWaker$')],
+    'Sender': [('internal', ARC)], 'AsyncSender': [('internal', ARC)], 'Receiver': [('internal', ARC)], 'AsyncReceiver': [('internal', ARC)],
+}
+
+
+def nolt(ty):
+    return re.sub(r"'[a-z_0-9]+ ?", '', ty or '')
+
+
+def resolve_fields(j):
+    """private fields the rules name (`queue`, `wait_list`, `sig`, `state`, `terminated` ...) are looked up by their TYPE inside
+    their struct when the name is gone (a rename); exactly one candidate -> every projection / aggregate is renamed back.
+    The two u32 counters are told apart by which one `Sender`'s Clone/Drop writes."""
+    ren = {}   # (field type without lifetimes, actual name) -> canonical name
+    agg = {}   # adt name -> {actual: canonical}
+    for a in j['adts']:
+        roles = FIELD_ROLES.get(canon(a['name']))
+        if not a.get('variants'):
+            continue
+        fields = a['variants'][0]['fields']
+        names = [f['name'] for f in fields]
+        todo = list(roles or [])
+        for role, pat in todo:
+            if role in names:
+                continue
+            cands = [f for f in fields if re.search(pat, nolt(f['ty'])) and f['name'] not in [r for r, _ in todo]]
+            if len(cands) == 1:
+                ren[(nolt(cands[0]['ty']), cands[0]['name'])] = role
+                agg.setdefault(canon(a['name']), {})[cands[0]['name']] = role
+        if canon(a['name']) == 'internal::ChannelInternal' and not ('send_count' in names and 'recv_count' in names):
+            u32s = [f for f in fields if f['ty'] == 'u32']
+            if len(u32s) == 2:
+                written = set()
+                for b in j['bodies']:
+                    if b['key'] in ('<Sender<T> as std::clone::Clone>::clone', '<Sender<T> as std::ops::Drop>::drop'):
+                        for blk in b['blocks']:
+                            for s in blk['stmts']:
+                                if s['k'] == 'assign' and s['lhs']['p'] and isinstance(s['lhs']['p'][-1], dict) and s['lhs']['p'][-1].get('ty') == 'u32':
+                                    written.add(s['lhs']['p'][-1].get('f'))
+                if len(written) == 1:
+                    sc = written.pop()
+                    rc = [f['name'] for f in u32s if f['name'] != sc]
+                    if len(rc) == 1:
+                        for actual, role in ((sc, 'send_count'), (rc[0], 'recv_count')):
+                            if actual != role:
+                                ren[('u32', actual)] = role
+                                agg.setdefault('internal::ChannelInternal', {})[actual] = role
+    if not ren:
+        return {}
+
+    def walk(x):
+        if isinstance(x, dict):
+            if 'f' in x and 'ty' in x and 'i' in x:
+                k = (nolt(x['ty']), x['f'])
+                if k in ren:
+                    x['f'] = ren[k]
+            if x.get('k') == 'agg' and x.get('ak') == 'adt' and canon(x.get('name', '')) in agg and x.get('fnames'):
+                m = agg[canon(x['name'])]
+                x['fnames'] = [m.get(n, n) for n in x['fnames']]
+            for v in x.values():
+                walk(v)
+        elif isinstance(x, list):
+            for v in x:
+                walk(v)
+
+    walk(j['bodies'])
+    for a in j['adts']:
+        m = agg.get(canon(a['name']))
+        if m:
+            for v in a['variants']:
+                for f in v['fields']:
+                    if f['name'] in m:
+                        f['actual_name'] = f['name']
+                        f['name'] = m[f['name']]
+    return {('%s.%s' % (a, k)): v for a, mm in agg.items() for k, v in mm.items()}
+
+
+FORWARD_ALSO = ['<mutex::RawMutexLock as lock_api::RawMutex>::try_lock', '<mutex::RawMutexLock as lock_api::RawMutex>::unlock']
+
+
+def forwarder_target(b, bodies):
+    """if body b does nothing but `return helper(args in order)` for a private crate-local helper, that helper's key"""
+    calls = []
+    for blk in b['blocks']:
+        if blk.get('cleanup'):
+            continue
+        t = blk['term']
+        if t['k'] == 'call':
+            calls.append(t)
+        elif t['k'] in ('switch', 'assert', 'drop'):
+            return None
+    if len(calls) != 1:
+        return None
+    t = calls[0]
+    fn = t.get('fn')
+    if not fn or not fn.get('local'):
+        return None
+    h = bodies.get(fn['path'])
+    if h is None or h is b or h.get('vis') == 'Public' or h.get('impl_trait') or h.get('def_kind') not in ('Fn', 'AssocFn'):
+        return None
+    n = b.get('arg_count', 0)
+    if h.get('arg_count') != n or len(t['args']) != n:
+        return None
+    # every argument is parameter i (possibly through a plain copy / reborrow chain of temporaries)
+    src = {}
+    for blk in b['blocks']:
+        for s in blk['stmts']:
+            if s['k'] == 'assign' and not s['lhs']['p']:
+                rv = s['rv']
+                if rv['k'] == 'use' and rv['o'].get('k') in ('copy', 'move') and not rv['o']['p']['p']:
+                    src[s['lhs']['l']] = rv['o']['p']['l']
+                elif rv['k'] in ('ref', 'rawptr') and rv['p']['p'] == ['*'] :
+                    src[s['lhs']['l']] = rv['p']['l']
+                else:
+                    src[s['lhs']['l']] = None
+
+    def root(l, d=0):
+        while l in src and d < 8:
+            l = src[l]
+            d += 1
+            if l is None:
+                return None
+        return l
+
+    for i, a in enumerate(t['args']):
+        if a.get('k') not in ('copy', 'move') or a['p']['p']:
+            return None
+        if root(a['p']['l']) != i + 1:
+            return None
+    if t['dest']['p']:
+        return None
+    if t['dest']['l'] != 0:
+        # the result must flow into the return place unchanged
+        moved = False
+        for blk in b['blocks']:
+            for s in blk['stmts']:
+                if s['k'] == 'assign' and not s['lhs']['p'] and s['lhs']['l'] == 0:
+                    rv = s['rv']
+                    if rv['k'] == 'use' and rv['o'].get('k') in ('copy', 'move') and not rv['o']['p']['p'] and rv['o']['p']['l'] == t['dest']['l']:
+                        moved = True
+                    else:
+                        return None
+        if not moved:
+            return None
+    return fn['path']
+
+
+def collapse_forwarders(j):
+    """a function the rules know by name that merely forwards to a private helper (`fn try_lock(&self) -> bool {
+    self.try_acquire() }`) IS that helper: the helper's body takes the canonical name, every other caller of the helper calls
+    the canonical function.  Nothing else changes."""
+    bodies = {b['key']: b for b in j['bodies']}
+    done = {}
+    for key in list(CANONICAL) + FORWARD_ALSO:
+        b = bodies.get(key)
+        if b is None:
+            continue
+        hk = forwarder_target(b, bodies)
+        if hk is None or hk in done:
+            continue
+        h = bodies[hk]
+        keep = {k: b.get(k) for k in ('key', 'name', 'vis', 'impl_trait', 'impl_self', 'def_kind', 'sig')}
+        b.clear()
+        b.update(h)
+        b.update(keep)
+        b['actual_key'] = hk
+        done[hk] = key
+    if not done:
+        return {}
+    j['bodies'] = [b for b in j['bodies'] if b['key'] not in done]
+    for b in j['bodies']:
+        for body in [b] + list(b.get('promoted') or []):
+            for blk in body['blocks']:
+                t = blk['term']
+                if t['k'] == 'call' and t.get('fn') and t['fn'].get('path') in done:
+                    ck = done[t['fn']['path']]
+                    cb = bodies[ck]
+                    nm = cb.get('name') or ck.split('::')[-1]
+                    if cb.get('impl_trait'):
+                        # the form every direct caller of a trait method has
+                        t['fn'] = dict(t['fn'], path='%s::%s' % (cb['impl_trait'], nm), full=ck, name=nm, local=False, trait=cb['impl_trait'],
+                                       resolved=ck, resolved_local=True)
+                    else:
+                        t['fn'] = dict(t['fn'], path=ck, full=ck, name=nm)
+    return done
+
+
 def resolve(j):
     """returns {actual key: canonical key}; rewrites j in place"""
+    try:
+        resolve_fields(j)
+    except Exception:
+        pass
+    try:
+        collapse_forwarders(j)
+    except Exception:
+        pass
     bodies = {b['key']: b for b in j['bodies'] if not str(b.get('def_kind', '')).startswith(('Const', 'AssocConst'))}
     missing = [r for r in ROLES if r[0] not in bodies]
     if not missing:
